@@ -31,6 +31,74 @@ def _kw(call, name):
     return None
 
 
+# ------------------------------------------------------------------ alpha-normalisation (local names are free)
+import copy as _copy0, hashlib as _hashlib
+
+
+def _alpha(fn):
+    """deep copy of a FunctionDef with every LOCAL name (assigned names, loop targets, nested functions and
+    their parameters, nonlocal names) replaced by v0, v1, ... in order of first binding (source order).  Parameters of
+    the function itself keep their names (they are API: the adapter passes them as keywords).  The docstring is dropped."""
+    fn = _copy0.deepcopy(fn)
+    params = {a.arg for a in fn.args.args + fn.args.kwonlyargs + fn.args.posonlyargs}
+    if fn.args.vararg:
+        params.add(fn.args.vararg.arg)
+    if fn.args.kwarg:
+        params.add(fn.args.kwarg.arg)
+    binds = []
+    for n in ast.walk(fn):
+        if n is fn:
+            continue
+        if isinstance(n, ast.Name) and isinstance(n.ctx, ast.Store):
+            binds.append((n.lineno, n.col_offset, n.id))
+        elif isinstance(n, (ast.FunctionDef, ast.AsyncFunctionDef)):
+            binds.append((n.lineno, n.col_offset, n.name))
+            for a in n.args.args + n.args.kwonlyargs + n.args.posonlyargs:
+                binds.append((a.lineno, a.col_offset, a.arg))
+    ren = {}
+    for _, _, name in sorted(binds):
+        if name not in params and name not in ren:
+            ren[name] = f"v{len(ren)}"
+    for n in ast.walk(fn):
+        if isinstance(n, ast.Name) and n.id in ren:
+            n.id = ren[n.id]
+        elif isinstance(n, (ast.FunctionDef, ast.AsyncFunctionDef)) and n is not fn:
+            if n.name in ren:
+                n.name = ren[n.name]
+            for a in n.args.args + n.args.kwonlyargs + n.args.posonlyargs:
+                if a.arg in ren:
+                    a.arg = ren[a.arg]
+        elif isinstance(n, (ast.Nonlocal, ast.Global)):
+            n.names = [ren.get(x, x) for x in n.names]
+    if fn.body and isinstance(fn.body[0], ast.Expr) and isinstance(fn.body[0].value, ast.Constant) and isinstance(fn.body[0].value.value, str):
+        fn.body = fn.body[1:] or [ast.Pass()]
+    return fn
+
+
+def _body_digest(fn):
+    """digest of the whole normalised body (statement kinds + expressions, signature with defaults, decorators);
+    insensitive to comments, docstring, layout and names of locals; any added / removed / changed statement changes it"""
+    a = _alpha(fn)
+    return _hashlib.sha1(ast.dump(a, annotate_fields=True, include_attributes=False).encode()).hexdigest()[:16]
+
+
+BODY_FUNCS = ["Motl.__init__", "Motl.create_empty_motl_df", "Motl.check_df_correct_format", "Motl.check_df_type", "Motl.load",
+              "Motl.get_unique_values", "Motl.get_motl_subset", "Motl.remove_feature", "Motl.split_by_feature", "Motl.get_motl_intersection",
+              "Motl.drop_duplicates", "Motl.merge_and_renumber", "Motl.merge_and_drop_duplicates", "Motl.renumber_particles",
+              "Motl.renumber_objects_sequentially", "EmMotl.__init__"]
+
+
+def _signature(fn):
+    """parameter names with their literal defaults, in order (the keywords the adapter relies on)"""
+    a = fn.args
+    names = [x.arg for x in a.args]
+    nd = len(names) - len(a.defaults)
+    out = []
+    for i, nme in enumerate(names):
+        out.append(nme if i < nd else f"{nme}={ast.unparse(a.defaults[i - nd])}")
+    return ",".join(out)
+
+
 # ------------------------------------------------------------------ structural extraction (ast shapes -> config records)
 # Local variable names are NOT compared: a variable is identified by the role it plays (loop target, accumulator,
 # selection). What is compared is the shape: what the loop runs over, how the requested values are made iterable,
@@ -313,11 +381,13 @@ def extract(src):
 
     # ---- get_motl_intersection: rows of m1 whose id isin m2
     def inter():
-        fn = src.find(REL, "Motl.get_motl_intersection")
+        fn = _alpha(src.find(REL, "Motl.get_motl_intersection"))
         calls = [n for n in ast.walk(fn) if isinstance(n, ast.Call) and isinstance(n.func, ast.Attribute) and n.func.attr in ("isin", "merge")]
         c = _one(calls, "get_motl_intersection: one isin/merge call")
         if c.func.attr != "isin":
             return "merge"
+        if c.keywords or len(c.args) != 1:
+            raise core.AnchorMissing("get_motl_intersection: isin(<one argument>)")
         recv, arg = core.norm_expr(c.func.value), core.norm_expr(c.args[0])
         # the selection must index the same frame the receiver column comes from
         subs = [n for n in ast.walk(fn) if isinstance(n, ast.Subscript) and isinstance(n.slice, ast.Call) and n.slice is c]
@@ -326,15 +396,22 @@ def extract(src):
     g["inter"] = src.anchor("get_motl_intersection:selection", inter)
 
     def inter_loads():
-        fn = src.find(REL, "Motl.get_motl_intersection")
+        # the two operands are the first two locals bound (v0, v1 after alpha-normalisation), whatever they are called
+        fn = _alpha(src.find(REL, "Motl.get_motl_intersection"))
         out = {}
         for n in ast.walk(fn):
-            if isinstance(n, ast.Assign) and isinstance(n.targets[0], ast.Name) and n.targets[0].id in ("m1", "m2"):
-                out[n.targets[0].id] = core.norm_expr(n.value)
-        if set(out) != {"m1", "m2"}:
-            raise core.AnchorMissing("get_motl_intersection: m1 = ..., m2 = ...")
-        return f"m1={out['m1']};m2={out['m2']}"
+            if isinstance(n, ast.Assign) and isinstance(n.targets[0], ast.Name) and n.targets[0].id in ("v0", "v1"):
+                out.setdefault(n.targets[0].id, []).append(core.norm_expr(n.value))
+        if set(out) != {"v0", "v1"}:
+            raise core.AnchorMissing("get_motl_intersection: <first local> = ..., <second local> = ...")
+        return "v0=" + "|".join(out["v0"]) + ";v1=" + "|".join(out["v1"])
     g["inter_loads"] = src.anchor("get_motl_intersection:operands", inter_loads)
+
+    def inter_ret():
+        fn = _alpha(src.find(REL, "Motl.get_motl_intersection"))
+        r = _one([n for n in ast.walk(fn) if isinstance(n, ast.Return)], "get_motl_intersection: one return")
+        return core.norm_expr(r.value)
+    g["inter_ret"] = src.anchor("get_motl_intersection:return", inter_ret)
 
     def fillna():
         fn = src.find(REL, "Motl.check_df_type")
@@ -380,39 +457,60 @@ def extract(src):
     g["dd_keep"] = src.anchor("drop_duplicates:keep", dd_keep)
 
     # ---- merge_and_renumber / merge_and_drop_duplicates (same shifting loop)
+    # locals after alpha-normalisation (order of first binding): accumulated frame v0, running maximum v1, loop variable v2,
+    # loaded list v3, its minimum v4, merged list v5 -- names in the source are free
     for tag, qual in (("mr", "Motl.merge_and_renumber"), ("md", "Motl.merge_and_drop_duplicates")):
         def shift_cmp(qual=qual):
-            fn = src.find(REL, qual)
-            ifs = [n for n in ast.walk(fn) if isinstance(n, ast.If) and isinstance(n.test, ast.Compare)
-                   and core.norm_expr(n.test.left) == "feature_min" and core.norm_expr(n.test.comparators[0]) == "feature_add"]
-            return CMP[type(_one(ifs, f"{qual}: if feature_min <op> feature_add").test.ops[0])]
+            fn = _alpha(src.find(REL, qual))
+            ifs = [n for n in ast.walk(fn) if isinstance(n, ast.If) and isinstance(n.test, ast.Compare) and len(n.test.ops) == 1
+                   and core.norm_expr(n.test.left) == "v4" and core.norm_expr(n.test.comparators[0]) == "v1"]
+            return CMP[type(_one(ifs, f"{qual}: if <list minimum> <op> <running maximum>").test.ops[0])]
         g[tag + "_cmp"] = src.anchor(f"{qual.split('.')[1]}:feature_min<op>feature_add", shift_cmp)
 
         def shift_expr(qual=qual):
-            fn = src.find(REL, qual)
-            ifs = [n for n in ast.walk(fn) if isinstance(n, ast.If) and isinstance(n.test, ast.Compare) and core.norm_expr(n.test.left) == "feature_min"]
-            body = _one(ifs, f"{qual}: shift if").body
-            st = _one([s for s in body if isinstance(s, ast.Assign)], f"{qual}: one assignment in the shift branch")
-            return core.norm_expr(st.targets[0]) + "=" + core.norm_expr(st.value)
+            fn = _alpha(src.find(REL, qual))
+            ifs = [n for n in ast.walk(fn) if isinstance(n, ast.If) and isinstance(n.test, ast.Compare) and core.norm_expr(n.test.left) == "v4"]
+            st = _one(ifs, f"{qual}: shift if")
+            if st.orelse:
+                raise core.AnchorMissing(f"{qual}: the shift branch has an else")
+            body = _one(st.body, f"{qual}: one statement in the shift branch")
+            if not isinstance(body, ast.Assign):
+                raise core.AnchorMissing(f"{qual}: the shift branch is not an assignment")
+            return core.norm_expr(body.targets[0]) + "=" + core.norm_expr(body.value)
         g[tag + "_shift"] = src.anchor(f"{qual.split('.')[1]}:shift-assignment", shift_expr)
 
         def minmax(qual=qual):
-            fn = src.find(REL, qual)
+            fn = _alpha(src.find(REL, qual))
             out = {}
             for n in ast.walk(fn):
-                if isinstance(n, ast.Assign) and isinstance(n.targets[0], ast.Name) and n.targets[0].id in ("feature_min", "feature_add"):
-                    out.setdefault(n.targets[0].id, []).append(core.norm_expr(n.value))
-            return "feature_min=" + "|".join(out.get("feature_min", [])) + ";feature_add=" + "|".join(out.get("feature_add", []))
+                if isinstance(n, ast.Assign):
+                    for t in n.targets:
+                        for e in (t.elts if isinstance(t, ast.Tuple) else [t]):
+                            if isinstance(e, ast.Name) and e.id in ("v4", "v1"):
+                                out.setdefault(e.id, []).append(core.norm_expr(n.value))
+            return "v4=" + "|".join(out.get("v4", [])) + ";v1=" + "|".join(out.get("v1", []))
         g[tag + "_minmax"] = src.anchor(f"{qual.split('.')[1]}:feature_min/feature_add", minmax)
 
         def tail(qual=qual):
-            fn = src.find(REL, qual)
+            fn = _alpha(src.find(REL, qual))
             calls = []
             for n in ast.walk(fn):
-                if isinstance(n, ast.Call) and isinstance(n.func, ast.Attribute) and core.norm_expr(n.func.value) == "merged_motl":
+                if isinstance(n, ast.Call) and isinstance(n.func, ast.Attribute) and core.norm_expr(n.func.value) == "v5":
                     calls.append(n.func.attr + "(" + ",".join(core.norm_expr(a) for a in n.args) + ",".join(f"{k.arg}={core.norm_expr(k.value)}" for k in n.keywords) + ")")
             return ";".join(calls)
         g[tag + "_tail"] = src.anchor(f"{qual.split('.')[1]}:post-merge-call", tail)
+
+        def loadcall(qual=qual):
+            # how every element of motl_list becomes the list that is shifted: must be a fresh object (cls.load copies a Motl
+            # and re-loads a DataFrame) -- working on the caller's own object would shift the caller's object numbers in place
+            fn = _alpha(src.find(REL, qual))
+            vals = [core.norm_expr(n.value) for n in ast.walk(fn) if isinstance(n, ast.Assign) and isinstance(n.targets[0], ast.Name) and n.targets[0].id == "v3"]
+            return "|".join(vals)
+        g[tag + "_load"] = src.anchor(f"{qual.split('.')[1]}:input-is-loaded", loadcall)
+
+    # ---- signatures (keyword names and defaults the adapter and the statement rely on) and whole-body digests
+    g["signatures"] = src.anchor("signatures", lambda: [f"{q.split('.')[1]}({_signature(src.find(REL, q))})" for q in BODY_FUNCS[4:15]])
+    g["bodies"] = src.anchor("whole-body-digests", lambda: [f"{q}:{_body_digest(src.find(REL, q))}" for q in BODY_FUNCS])
 
     # ---- renumber_particles
     def rp():
@@ -446,37 +544,52 @@ RESET = ("dropTrue", "absent", "keepOld")
 CODES = ("factorizeFirst",)
 
 DOC = dict(
-    inter="m1.df.loc[m1.df[feature_id].isin(m2.df[feature_id])]",
-    inter_loads="m1=cls.load(motl1.df);m2=cls.load(motl2.df)",
-    shift="motl.df.loc[:,'object_id']=motl.df.loc[:,'object_id']+(feature_add-feature_min+1)",
-    minmax="feature_min=min(motl.df.loc[:,'object_id']);feature_add=0|max(motl.df.loc[:,'object_id'])",
+    inter="v0.df.loc[v0.df[feature_id].isin(v1.df[feature_id])]",
+    inter_loads="v0=cls.load(motl1.df);v1=cls.load(motl2.df)",
+    inter_ret="cls(v2.reset_index(drop=True))",
+    mr_shift="v3.df.loc[:,'object_id']=v3.df.loc[:,'object_id']+(v1-v4+1)",
+    mr_minmax="v4=min(v3.df.loc[:,'object_id']);v1=0|max(v3.df.loc[:,'object_id'])",
     mr_tail="renumber_particles()",
     md_tail="drop_duplicates()",
+    mr_load="cls.load(v2)",
     rp="self.df.loc[:,'subtomo_id']=list(range(1,len(self.df)+1))",
+    dd_keep="first",
 )
+DOC["md_shift"], DOC["md_minmax"], DOC["md_load"] = DOC["mr_shift"], DOC["mr_minmax"], DOC["mr_load"]
+# documented values used when an anchor could NOT be extracted (anchorsOk is false then and the theorems break; the model
+# keeps the documented behaviour instead of silently switching to an arbitrary one)
+DOC_CMP = dict(subset_cmp="eq", remove_cmp="ne", split_cmp="eq", mr_cmp="le", md_cmp="le")
+DOC_NAT = dict(fill_value=0, rp_start=1, ro_default=1)
+DOC_LOOP = dict(subset_loop=dict(iter="requested", norm="atleast1d", acc="append", reset="dropTrue", sameFrame=True),
+                remove_loop=dict(iter="requested", norm="listOrArrayElseWrap", acc="narrow", reset="absent", sameFrame=True),
+                split_loop=dict(iter="uniqueFirst", norm="none", acc="append", reset="absent", sameFrame=True))
+DOC_OBJ = dict(groupKey="tomo_id", groupOrder="uniqueSorted", codes="factorizeFirst", startUpdate=1, reset="dropTrue", writesBack=True)
 
 
 def translate(src):
     g = extract(src)
-    cols = g["cols"] if isinstance(g["cols"], list) and all(isinstance(c, str) for c in g["cols"]) else []
-    cmp_ = lambda k: "." + (g[k] if g.get(k) in CMP.values() else "bad")
-    s = lambda k: core.lean_str(g[k]) if isinstance(g.get(k), str) else '"<missing>"'
+    cols = g["cols"] if isinstance(g["cols"], list) and all(isinstance(c, str) for c in g["cols"]) else list(DOCUMENTED)
+    cmp_ = lambda k: "." + (g[k] if g.get(k) in CMP.values() else DOC_CMP[k])
+    s = lambda k: core.lean_str(g[k]) if isinstance(g.get(k), str) else core.lean_str(DOC[k])
     b = lambda v: "true" if v else "false"
-    dd = g["dd_defaults"] if isinstance(g.get("dd_defaults"), list) else ["<missing>", "<missing>", True]
-    nat = lambda k: g[k] if isinstance(g.get(k), int) and g[k] >= 0 else 0
+    dd = g["dd_defaults"] if isinstance(g.get("dd_defaults"), list) else ["subtomo_id", "score", False]
+    nat = lambda k: g[k] if isinstance(g.get(k), int) and g[k] >= 0 else DOC_NAT[k]
     en = lambda v, allowed: "." + (v if v in allowed else "bad")
+    strs = lambda k: core.lean_str_list(g[k]) if isinstance(g.get(k), list) and all(isinstance(x, str) for x in g[k]) else "[]"
+    missing_true = lambda k: True if g.get(k) is None else bool(g.get(k))
 
     def loop_(k):
-        d = g.get(k) if isinstance(g.get(k), dict) else {}
+        d = g.get(k) if isinstance(g.get(k), dict) else DOC_LOOP[k]
         return ("{ iter := " + en(d.get("iter"), ITER) + ", norm := " + en(d.get("norm"), NORM) + ", acc := " + en(d.get("acc"), ACC)
                 + ", reset := " + en(d.get("reset"), RESET) + ", sameFrame := " + b(d.get("sameFrame")) + " }")
 
     def obj_():
-        d = g.get("obj_loop") if isinstance(g.get("obj_loop"), dict) else {}
+        d = g.get("obj_loop") if isinstance(g.get("obj_loop"), dict) else DOC_OBJ
         upd = d.get("startUpdate")
         return ("{ groupKey := " + core.lean_str(str(d.get("groupKey", "<missing>"))) + ", groupOrder := " + en(d.get("groupOrder"), ITER)
                 + ", codes := " + en(d.get("codes"), CODES) + ", startUpdate := " + (f"some {upd}" if isinstance(upd, int) and upd >= 0 else "none")
                 + ", reset := " + en(d.get("reset"), RESET) + ", writesBack := " + b(d.get("writesBack")) + " }")
+    inter_ok = (g.get("inter") in (None, DOC["inter"])) and (g.get("inter_loads") in (None, DOC["inter_loads"]))
     return f"""-- GENERATED by harness/props/c08.py from {REL}; do not edit
 namespace CryoCat.Gen.C08
 /-- comparison operators as they appear in the source (`.bad` = not one of the six) -/
@@ -520,7 +633,7 @@ structure ObjLoop where
 deriving DecidableEq, Repr
 def anchorsOk : Bool := {b(src.ok)}
 def motlColumnNames : List String := {core.lean_str_list(cols)}
-def formatIsPermCheck : Bool := {b(g.get("format_is_perm"))}
+def formatIsPermCheck : Bool := {b(missing_true("format_is_perm"))}
 -- get_motl_subset
 def subsetCmp : Cmp := {cmp_("subset_cmp")}
 def subsetLoop : SelectLoop := {loop_("subset_loop")}
@@ -533,13 +646,14 @@ def splitLoop : SelectLoop := {loop_("split_loop")}
 -- get_motl_intersection
 def intersectSelection : String := {s("inter")}
 def intersectOperands : String := {s("inter_loads")}
-def intersectKeepsFirstByIsin : Bool := {b(g.get("inter") == DOC["inter"] and g.get("inter_loads") == DOC["inter_loads"])}
+def intersectReturn : String := {s("inter_ret")}
+def intersectKeepsFirstByIsin : Bool := {b(inter_ok)}
 def loadFillValue : Nat := {nat("fill_value")}
 -- drop_duplicates
 def ddDefaultDuplicates : String := {core.lean_str(str(dd[0]))}
 def ddDefaultDecision : String := {core.lean_str(str(dd[1]))}
 def ddDefaultAscending : Bool := {b(dd[2])}
-def ddFirstKeyAscending : Bool := {b(g.get("dd_first_asc"))}
+def ddFirstKeyAscending : Bool := {b(missing_true("dd_first_asc"))}
 def ddKeep : String := {s("dd_keep")}
 -- merge_and_renumber / merge_and_drop_duplicates
 def mergeRenumberShiftCmp : Cmp := {cmp_("mr_cmp")}
@@ -550,12 +664,17 @@ def mergeDropDupShiftCmp : Cmp := {cmp_("md_cmp")}
 def mergeDropDupShift : String := {s("md_shift")}
 def mergeDropDupMinMax : String := {s("md_minmax")}
 def mergeDropDupTail : String := {s("md_tail")}
+def mergeRenumberLoad : String := {s("mr_load")}
+def mergeDropDupLoad : String := {s("md_load")}
 -- renumber_particles
 def renumberParticlesAssign : String := {s("rp")}
 def renumberParticlesFirst : Nat := {nat("rp_start")}
 -- renumber_objects_sequentially
 def renumberObjectsDefaultStart : Nat := {nat("ro_default")}
 def objLoop : ObjLoop := {obj_()}
+-- signatures (parameter names and literal defaults) and digests of the whole alpha-normalised bodies
+def signatures : List String := {strs("signatures")}
+def bodyDigests : List String := {strs("bodies")}
 end CryoCat.Gen.C08
 """
 
@@ -576,28 +695,51 @@ ZEROB = 0
 OPS = ["subset", "remove", "split", "intersect", "dropdup", "merge_renumber", "merge_dropdup", "renumber_particles", "renumber_objects"]
 
 RULE = ("histories: a base particle list of 0..200 rows (key fields tomo_id/object_id/subtomo_id/class/geom1/geom2/score/subtomo_mean from small "
-        "domains with gaps, so values repeat; subtomo_id unsorted with duplicates; object ids include 0 and negatives; NaN holes only in the 12 "
+        "domains with gaps, so values repeat; subtomo_id unsorted with duplicates; object ids include 0 and negatives; NaN holes in the 12 "
         "non-key fields; the frame's column order is shuffled in 30% of the cases) followed by 1..10 operations (thorough: up to 40) drawn from "
-        "subset / remove / split+pick / intersection / drop_duplicates / merge_and_renumber / merge_and_drop_duplicates / renumber_particles / "
-        "renumber_objects_sequentially; arguments are chosen against a pure-Python row-set simulation of the current table so that most ops hit "
+        "subset / remove / split / intersection / drop_duplicates / merge_and_renumber / merge_and_drop_duplicates / renumber_particles / "
+        "renumber_objects_sequentially; arguments are chosen against a pure-Python simulation of the current table so that most ops hit "
         "existing values (requested values as list / tuple / ndarray / scalar, repeated and absent values, empty value lists; second operands of "
-        "intersection repeat ids; merge inputs are Motl objects or bare DataFrames, some empty). After every op the whole table (column names and "
-        "all cells, bit-exact) is compared with the Lean model, and the real output of every op (plus all parts of a split and the column names) is sent to the "
-        "Lean verified checkers, which decide the clauses of the statement (Python evaluators cross-check them). "
+        "intersection repeat ids and have up to 45 rows; merge inputs are Motl objects or bare DataFrames, some empty, 1..5 per call). "
+        "Four streams: plain (62%); nan-key (12%): NaN in ONE key field (tomo_id / object_id / subtomo_id / class / geom1) which is then used as the "
+        "feature of split / subset / remove (NaN also among the requested values) or by renumber_objects_sequentially -- where the real code then "
+        "behaves exactly as the open known finding C08-K1 describes the case is classified, every other deviation is a violation; large-ids (14%): "
+        "adjacent particle / object numbers >= 1e5 and scores / geom values differing in the 6th digit, requested in subset / remove; g2-cache (12%): "
+        "split by F, rewrite F without changing the number of rows (renumber), split by F again ON THE SAME INSTANCE. "
+        "G1: keywords whose value equals the signature default are omitted in 45-50% of the calls (feature_id of subset / intersection, the three of "
+        "drop_duplicates, starting_number), subset also with return_df=True and reset_index=False. G2: 40% of the splits only look at the parts and continue "
+        "with the same instance; 12% of the non-mutating calls are made twice on the same objects (the second result is judged); operand objects "
+        "(second list of an intersection, inputs of a merge) are re-used by later calls; in-place ops are repeated; every caller-owned argument is "
+        "compared before/after each call. G3: dtype of every returned column, text cells, index state, column order and returned class are observed. "
+        "After every op the real output (all parts of a split, the column names) is sent to the Lean verified checkers, which decide the clauses of "
+        "the statement against the REAL previous table (Python evaluators cross-check them); then table, parts, index state, dtypes, class are compared "
+        "with the Lean model / the documented behaviour (corr). "
         "non-trivial = base >= 4 rows, >= 3 ops of >= 2 kinds, and >= 2 ops acting on a non-empty table; distinct = distinct (base, ops) content")
 ASSUMPTIONS = [
-    "key fields (the feature compared / the id / the decision column of an op) hold no NaN, so == is reflexive; NaN occurs only in the 12 non-key fields",
-    "numpy float64 ==, <, + on the generated key values (small integers and halves) = Lean Float ==, <, + (IEEE binary64 both; compared bit for bit on every case)",
+    "key comparisons are IEEE `==` (the statement's 'matching'): a missing key matches nothing. subset / remove / intersection are exact under it "
+    "(subset_spec_beq, remove_spec_beq need no reflexivity); split_partition, dropDup_spec (every id survives) and renumberObjects_spec need `=` to be "
+    "reflexive on the keys (split_drops_irreflexive_rows, renumberObjects_irreflexive_rows show what happens otherwise = open known finding C08-K1)",
+    "NEW classes found by the hardening pass, reported to the integrator and generated only once registered as open: C08-K2 (drop_duplicates / "
+    "merge_and_drop_duplicates collapse all rows with a missing id into one row), C08-K3 (a missing object_id in a Motl input of a merge makes Python's "
+    "min()/max() order-dependent: inputs are not shifted and object numbers collide). Until then such a list reaches a merge only as a bare DataFrame "
+    "(re-loaded, missing values filled) and drop_duplicates is not called on a column holding NaN; NaN never occurs in a decision column",
+    "numpy float64 ==, <, + on the generated key values (small integers, halves, integers < 2^24, dyadic fractions) = Lean Float ==, <, + (IEEE binary64 both; compared bit for bit on every case)",
     "Motl.load(DataFrame) replaces missing values by 0.0 (check_df_type: fillna(0.0)); get_motl_intersection and merge inputs given as DataFrames therefore "
-    "return 0.0 where a surviving row had NaN. The model contains this fill explicitly and the 'no other field changed' clause is read modulo it (reported to the integrator)",
+    "return 0.0 where a surviving row had NaN. ONLY these operations may do so (Op.mayFill; step_rows / history_rows / check_history_rows are stated with opFill / histFill); "
+    "selections, drop_duplicates, the renumberings and merges of Motl objects must return literal rows (step_rows_literal, history_rows_literal)",
     "pandas: boolean-mask selection and concat keep row order; Series.unique / factorize number by first appearance; sort_values on two keys is a stable "
     "lexicographic sort; drop_duplicates keeps the first; groupby iterates its keys in ascending order; isin is exact float membership",
+    "the whole-body digests (bodies_documented) are ast.dump digests under the pinned Python 3.12; another Python version may need them regenerated",
 ]
 TRUSTED = ["spec findings are decided by the Lean verified checkers (Model/C08_Check.lean; check_*_sound / check_*_complete / check_history_rows) on the REAL "
-           "output of every op; trusted around them: the adapter that brings a frame into canonical column order and IEEE bit patterns, the driver's cell "
-           "comparison (same bit pattern, one pattern for every NaN) standing for equality (hypothesis heqv), and that a raised exception is reported as such",
+           "output of every op, or by evaluations that involve neither the model nor a sub-result of the implementation: an exception with a frame inside "
+           "cryocat/, a text cell in a numeric field, a caller-owned argument differing from its picture taken before the call; trusted around them: the adapter "
+           "that reads a frame into IEEE bit patterns by column NAME (dtypes, text cells, index state and column order are recorded beside it), the driver's cell "
+           "comparison (same bit pattern, one pattern for every NaN) standing for equality (hypothesis heqv)",
+           "an exception without a frame inside cryocat/ (harness / third-party) is reported as corr `harness-or-library-raised`, never as a spec finding",
            "offset certificates for merge_and_drop_duplicates are computed in Python but NOT trusted (the checker verifies them; a wrong one can only cause a rejection)",
-           "the pure-Python clause evaluators are a cross-check only (a disagreement with the Lean checker is reported as a corr finding)"]
+           "the pure-Python clause evaluators are a cross-check only (a disagreement with the Lean checker is reported as a corr finding); the simulations used by "
+           "classify() (k1_split_parts, k1_renumber_objects, py_dropdup, py_merge) only decide whether a rejected output is EXACTLY the known defect"]
 
 
 def canon(b):
@@ -631,16 +773,48 @@ def py_uniq(xs):
     return out
 
 
+def _nan(x):
+    return x != x
+
+
+def has_nan(rows, f):
+    return any(r[IDX[f]] == NANB for r in rows)
+
+
+def pd_uniq(xs):
+    """Series.unique(): first appearance, all missing values are ONE value"""
+    out, seen_nan = [], False
+    for x in xs:
+        if _nan(x):
+            if not seen_nan:
+                seen_nan = True; out.append(x)
+        elif not any(x == y for y in out):
+            out.append(x)
+    return out
+
+
 def py_dropdup(rows, dup, dec, asc):
-    srt = sorted(rows, key=lambda r: (val(r, dup), val(r, dec) if asc else -val(r, dec)))
-    seen, out = [], []
+    """sort_values([dup, dec], ascending=[True, asc]) (stable, missing values last) + drop_duplicates(subset=dup) (keep first,
+    missing ids are one id) -- pandas' behaviour, also for NaN keys (class C08-K2 when dup holds NaN)"""
+    def k2(r):
+        d = val(r, dec)
+        return (1, 0.0) if _nan(d) else (0, d if asc else -d)
+    srt = sorted(rows, key=k2)
+    srt = sorted(srt, key=lambda r: (1, 0.0) if _nan(val(r, dup)) else (0, val(r, dup)))
+    seen, seen_nan, out = [], False, []
     for r in srt:
-        if val(r, dup) not in seen:
-            seen.append(val(r, dup)); out.append(list(r))
+        v = val(r, dup)
+        if _nan(v):
+            if not seen_nan:
+                seen_nan = True; out.append(list(r))
+        elif v not in seen:
+            seen.append(v); out.append(list(r))
     return out
 
 
 def py_merge(inputs):
+    """the documented loop, with Python's own min()/max() over the column in row order (so that a NaN object number behaves
+    as in the real code: class C08-K3) """
     out, add = [], 0.0
     for df, rows in inputs:
         rows = [list(fz(r)) for r in rows] if df else [list(r) for r in rows]
@@ -658,15 +832,46 @@ def inputs_of(op, cur):
     return [(x["df"], x["rows"]) for x in op["before"]] + [(op["self_df"], cur)] + [(x["df"], x["rows"]) for x in op["after"]]
 
 
+def k1_split_parts(rows, f):
+    """what split_by_feature does when the feature holds NaN (known finding C08-K1): Series.unique() lists NaN once and
+    `== NaN` selects nothing, so the rows with a missing feature are in no part (and one part is empty)"""
+    return [[list(r) for r in rows if val(r, f) == v] for v in pd_uniq([val(r, f) for r in rows])]
+
+
+def k1_renumber_objects(rows, start):
+    """what renumber_objects_sequentially does with NaN keys (known finding C08-K1): groupby drops rows with a missing
+    tomo_id (left un-renumbered); factorize codes a missing object_id as -1, so it gets start-1"""
+    out = [list(r) for r in rows]
+    s = start
+    for t in sorted({val(r, "tomo_id") for r in rows if not _nan(val(r, "tomo_id"))}):
+        idx = [i for i, r in enumerate(rows) if val(r, "tomo_id") == t]
+        codes, new = [], []
+        for i in idx:
+            o = val(rows[i], "object_id")
+            if _nan(o):
+                new.append(s - 1)
+            else:
+                if o not in codes:
+                    codes.append(o)
+                new.append(s + codes.index(o))
+        for i, nw in zip(idx, new):
+            out[i] = setf(out[i], "object_id", float(nw))
+        s = max(new) + 1
+    return out
+
+
 def py_step(rows, op):
+    """pure-Python simulation used by the GENERATOR only (to choose arguments that hit existing values)"""
     k = op["op"]
     if k == "subset":
         return [list(r) for v in op["vs"] for r in rows if val(r, op["f"]) == b2f(v)]
     if k == "remove":
         return [list(r) for r in rows if all(val(r, op["f"]) != b2f(v) for v in op["vs"])]
     if k == "split":
-        u = py_uniq([val(r, op["f"]) for r in rows])
-        return [list(r) for r in rows if val(r, op["f"]) == u[op["pick"]]] if op["pick"] < len(u) else []
+        if op.get("keep"):
+            return [list(r) for r in rows]
+        parts = k1_split_parts(rows, op["f"])
+        return parts[op["pick"]] if op["pick"] < len(parts) else []
     if k == "intersect":
         ids = {b2f(fz(r)[IDX[op["f"]]]) for r in op["other"]}
         return [list(fz(r)) for r in rows if b2f(fz(r)[IDX[op["f"]]]) in ids]
@@ -680,26 +885,38 @@ def py_step(rows, op):
     if k == "renumber_particles":
         return [setf(r, "subtomo_id", float(i + 1)) for i, r in enumerate(rows)]
     if k == "renumber_objects":
-        start = b2f(op["start"])
-        keys = []
-        for t in sorted(py_uniq([val(r, "tomo_id") for r in rows])):
-            for o in py_uniq([val(r, "object_id") for r in rows if val(r, "tomo_id") == t]):
-                keys.append((t, o))
-        return [setf(r, "object_id", start + float(keys.index((val(r, "tomo_id"), val(r, "object_id"))))) for r in rows]
+        return k1_renumber_objects(rows, b2f(op["start"]))   # = the documented renumbering when no key is missing
     raise ValueError(k)
 
 
 # ------------------------------------------------------------------ generators
-def _domain(rng, f):
+def _open_ids():
+    """ids of OPEN known findings of C08 (the classes C08-K2 / C08-K3 reported by the hardening pass are generated only once
+    the integrator has registered them; until then they would be unlisted violations on the unchanged tree)"""
+    import json, os
+    try:
+        path = os.path.join(os.path.dirname(os.path.dirname(os.path.dirname(os.path.abspath(__file__)))), "known_findings.json")
+        return {f["id"] for f in json.load(open(path)).get("findings", []) if f.get("status") == "open" and f.get("property") == "C08"}
+    except Exception:
+        return set()
+
+
+def _domain(rng, f, big=False):
     if f == "tomo_id":
         return rng.choice([[1, 2, 3], [1, 2, 5, 9], [3, 7], [2], [10, 4, 1, 6, 8]])
     if f == "object_id":
+        if big:
+            return rng.choice([[100001, 100002, 100003, 100004], [250017, 250018, 250019, 7, 8]])
         return rng.choice([[1, 2, 3, 4], [0, 1, 2], [5, 9, 2, 7, 11], [1], [-2, 0, 3, 4], [1, 2, 3, 4, 5, 6, 7, 8]])
     if f == "class":
         return [1, 2, 3]
     if f in ("geom1", "geom2", "subtomo_mean"):
+        if big and f == "geom1":
+            return [0.75, 0.75 + 2.0 ** -20, 0.75 + 2.0 ** -19, 3.0]    # different values closer than 1e-5 relative
         return rng.choice([[0, 1, 2], [0.5, 1.5, 2.5, 3.0], [7]])
     if f == "score":
+        if big:
+            return [0.5, 0.5 + 2.0 ** -21, 0.5 + 2.0 ** -20, 0.25, 1.0]
         return rng.choice([[0.25, 0.5, 0.75, 1.0], [k / 16 for k in range(17)], [0.5]])
     raise KeyError(f)
 
@@ -762,42 +979,88 @@ def _other_list(rng, cur, doms, id_pool, maxn):
 
 
 def _values(rng, cur, f, doms):
-    present = py_uniq([val(r, f) for r in cur])
+    present = py_uniq([val(r, f) for r in cur if not _nan(val(r, f))])
     pool = present if present else [1.0]
     kind = rng.choices(["list", "tuple", "ndarray", "scalar"], [0.4, 0.15, 0.3, 0.15])[0]
+    nanreq = has_nan(cur, f) and rng.random() < 0.3      # a missing value among the requested ones
     if kind == "scalar":
         vs = [rng.choice(pool)] if rng.random() < 0.85 else [97.0]
     else:
         n = rng.choice([0, 1, 1, 2, 2, 3, 4]) if rng.random() < 0.9 else len(cur)  # len(values) == len(rows): the D20 shape
         vs = [rng.choice(pool) if rng.random() < 0.85 else float(rng.choice([97, 0, -1, 2.5])) for _ in range(n)]
+        if nanreq:
+            vs.insert(rng.randrange(len(vs) + 1), float("nan"))
     return kind, [fb(v) for v in vs]
 
 
-def _gen_op(rng, cur, doms, id_pool, tier):
+def _gen_op(rng, cur, doms, id_pool, tier, ctx):
+    """ctx: dict(nanf=field holding NaN keys or None, big=bool, pool=[reusable operand lists], open=set of open finding ids)"""
     kind = rng.choices(OPS, [16, 12, 10, 14, 12, 9, 7, 8, 12])[0]
+    nanf = ctx.get("nanf")
+    pref = [nanf] * 3 if nanf else (["subtomo_id", "geom1", "score", "object_id"] if ctx.get("big") else [])
+    twice = rng.random() < 0.12
     if kind in ("subset", "remove"):
-        f = rng.choice(["tomo_id", "tomo_id", "object_id", "class", "subtomo_id", "geom1", "score"])
+        f = rng.choice(["tomo_id", "tomo_id", "tomo_id", "object_id", "class", "subtomo_id", "geom1", "score"] + pref * 3)
         vk, vs = _values(rng, cur, f, doms)
         if kind == "remove" and vk == "tuple":
             vk = "list"   # remove_feature documents list / ndarray / scalar
-        return dict(op=kind, f=f, vs=vs, vkind=vk)
+        op = dict(op=kind, f=f, vs=vs, vkind=vk)
+        if kind == "subset":
+            # G1: omit keywords whose value is the signature default (feature_id='tomo_id', return_df=False, reset_index=True)
+            op["omit_f"] = (f == "tomo_id" and rng.random() < 0.5)
+            op["ret_df"] = rng.random() < 0.12
+            op["reset"] = rng.choices(["omit", True, False], [0.5, 0.3, 0.2])[0]
+            op["twice"] = twice
+        else:
+            op["kw"] = rng.random() < 0.3
+        return op
     if kind == "split":
-        f = rng.choice(["tomo_id", "tomo_id", "object_id", "class", "geom2"])
-        n = len(py_uniq([val(r, f) for r in cur]))
-        return dict(op="split", f=f, pick=rng.randrange(n) if n else 0)
+        f = rng.choice(["tomo_id", "tomo_id", "object_id", "class", "geom2", "subtomo_id"] + pref)
+        n = len(k1_split_parts(cur, f))
+        return dict(op="split", f=f, pick=rng.randrange(n) if n else 0, keep=rng.random() < 0.4, twice=twice)
     if kind == "intersect":
-        f = rng.choice(["subtomo_id", "subtomo_id", "subtomo_id", "tomo_id", "object_id", "class"])
-        return dict(op="intersect", f=f, other=_other_list(rng, cur, doms, id_pool, 25 if tier != "thorough" else 60))
+        f = rng.choice(["subtomo_id", "subtomo_id", "subtomo_id", "subtomo_id", "tomo_id", "object_id", "class"] + pref)
+        reuse = [x for x in ctx["pool"] if x["kind"] == "other"]
+        if reuse and rng.random() < 0.25:
+            x = rng.choice(reuse)
+            other, oid = x["rows"], x["oid"]
+        else:
+            maxn = (25 if rng.random() < 0.6 else 45) if tier != "thorough" else 60
+            other, oid = _other_list(rng, cur, doms, id_pool, maxn), f"o{len(ctx['pool'])}"
+            ctx["pool"].append(dict(kind="other", rows=other, oid=oid))
+        return dict(op="intersect", f=f, other=other, oid=oid, omit_f=(f == "subtomo_id" and rng.random() < 0.5), twice=twice)
     if kind == "dropdup":
-        dup = rng.choice(["subtomo_id", "subtomo_id", "object_id", "tomo_id", "class"])
-        dec = rng.choice([f for f in ["score", "score", "geom1", "geom2", "subtomo_mean"] if f != dup])
-        return dict(op="dropdup", dup=dup, dec=dec, asc=rng.random() < 0.4)
+        dup = rng.choice(["subtomo_id", "subtomo_id", "subtomo_id", "object_id", "tomo_id", "class"])
+        if has_nan(cur, dup) and "C08-K2" not in ctx["open"]:
+            dup = next((d for d in ["subtomo_id", "tomo_id", "class", "object_id"] if not has_nan(cur, d)), "geom2")
+        dec = rng.choice([f for f in ["score", "score", "score", "geom1", "geom2", "subtomo_mean"] if f != dup])
+        if has_nan(cur, dec):
+            dec = "score" if dup != "score" else "geom2"
+        asc = rng.random() < 0.35
+        # G1: omit keywords whose value is the signature default
+        omit = [k for k, isdef in (("dup", dup == "subtomo_id"), ("dec", dec == "score"), ("asc", not asc)) if isdef and rng.random() < 0.45]
+        return dict(op="dropdup", dup=dup, dec=dec, asc=asc, omit=omit)
     if kind in ("merge_renumber", "merge_dropdup"):
         def inp():
+            reuse = [x for x in ctx["pool"] if x["kind"] == "input"]
+            if reuse and rng.random() < 0.3:
+                x = rng.choice(reuse)
+                return dict(df=x["df"], rows=x["rows"], oid=x["oid"])
             n = 0 if rng.random() < 0.2 else rng.randint(1, 12)
-            return dict(df=rng.random() < 0.4, rows=_rows(rng, n, doms, id_pool))
+            x = dict(kind="input", df=rng.random() < 0.4, rows=_rows(rng, n, doms, id_pool), oid=f"i{len(ctx['pool'])}")
+            ctx["pool"].append(x)
+            return dict(df=x["df"], rows=x["rows"], oid=x["oid"])
         nb, na = rng.choice([0, 0, 1, 2]), rng.choice([0, 1, 1, 2])
-        return dict(op=kind, before=[inp() for _ in range(nb)], after=[inp() for _ in range(na)], self_df=rng.random() < 0.4)
+        self_df = rng.random() < 0.4
+        # a NaN object number (subtomo number for merge_and_drop_duplicates) in a Motl input is class C08-K3 (C08-K2): handed
+        # over as a bare DataFrame the list is re-loaded (missing values filled) and the merge is exact
+        if has_nan(cur, "object_id") and "C08-K3" not in ctx["open"]:
+            self_df = True
+        if kind == "merge_dropdup" and has_nan(cur, "subtomo_id") and "C08-K2" not in ctx["open"]:
+            self_df = True
+        if kind == "merge_dropdup" and has_nan(cur, "score"):
+            self_df = True
+        return dict(op=kind, before=[inp() for _ in range(nb)], after=[inp() for _ in range(na)], self_df=self_df, twice=twice)
     if kind == "renumber_particles":
         return dict(op=kind)
     return dict(op="renumber_objects", start=fb(float(rng.choice([1, 1, 1, 0, 5, 10, 100]))), default=rng.random() < 0.3)
@@ -805,10 +1068,26 @@ def _gen_op(rng, cur, doms, id_pool, tier):
 
 def gen_case(rng, tier):
     n = _size(rng, tier)
-    doms = {f: _domain(rng, f) for f in KEY_FIELDS if f != "subtomo_id"}
+    stream = rng.choices(["plain", "nan-key", "g2-cache", "large-ids"], [0.62, 0.12, 0.12, 0.14])[0]
+    big = stream == "large-ids"
+    doms = {f: _domain(rng, f, big) for f in KEY_FIELDS if f != "subtomo_id"}
     pool_n = max(1, int(max(n, 4) * rng.choice([0.5, 0.8, 1.5])))
-    id_pool = rng.sample(range(1, 4 * pool_n + 1), pool_n)   # unsorted, with gaps; rows draw with repetition
+    if big:   # adjacent particle numbers >= 1e5 (two different ids within 1e-5 relative of each other)
+        lo = rng.choice([100001, 250017, 1000003])
+        id_pool = rng.sample(range(lo, lo + 2 * pool_n + 1), pool_n)
+    else:
+        id_pool = rng.sample(range(1, 4 * pool_n + 1), pool_n)   # unsorted, with gaps; rows draw with repetition
+    if stream in ("nan-key", "g2-cache") and n < 4:
+        n = rng.randint(4, 30)
     base = _rows(rng, n, doms, id_pool)
+    ctx = dict(nanf=None, big=big, pool=[], open=_open_ids())
+    if stream == "nan-key" and base:
+        # a missing value in a KEY field ("repeated and missing field values"): tomo_id / object_id / subtomo_id or another
+        # field used as the feature of subset / remove / split
+        f = rng.choice(["tomo_id", "object_id", "subtomo_id", "tomo_id", "object_id", "subtomo_id", "class", "geom1"])
+        ctx["nanf"] = f
+        for i in rng.sample(range(len(base)), max(1, min(len(base), rng.randint(1, 1 + len(base) // 4)))):
+            base[i][IDX[f]] = NANB
     cols = list(FIELDS)
     if rng.random() < 0.3:
         rng.shuffle(cols)
@@ -816,20 +1095,69 @@ def gen_case(rng, tier):
     if tier == "thorough" and rng.random() < 0.05:
         nops = rng.randint(11, 40)
     ops, cur = [], base
-    for _ in range(nops):
-        op = _gen_op(rng, cur, doms, id_pool, tier)
+
+    def push(op):
+        nonlocal cur
         if op["op"] == "renumber_objects" and op.get("default"):
             op["start"] = fb(1.0)
         ops.append(op)
         cur = py_step(cur, op)
+
+    if stream == "nan-key" and rng.random() < 0.75:
+        # use the field with the missing key early, while the rows that hold it are still in the list
+        f = ctx["nanf"]
+        lead = rng.choice(["split", "subset", "remove", "renumber_objects"] if f in ("tomo_id", "object_id") else ["split", "subset", "remove"])
+        if lead == "split":
+            k = len(k1_split_parts(cur, f))
+            push(dict(op="split", f=f, pick=rng.randrange(k) if k else 0, keep=rng.random() < 0.5, twice=False))
+        elif lead == "renumber_objects":
+            push(dict(op="renumber_objects", start=fb(float(rng.choice([1, 1, 5]))), default=rng.random() < 0.3))
+        else:
+            vk, vs = _values(rng, cur, f, doms)
+            vk = "list" if (lead == "remove" and vk == "tuple") else vk
+            push(dict(op=lead, f=f, vs=vs, vkind=vk, omit_f=False, ret_df=False, reset="omit", twice=False, kw=False))
+    if stream == "large-ids" and cur and rng.random() < 0.75:
+        # request a value that has a DIFFERENT value of the same field within 1e-5 relative (adjacent particle numbers >= 1e5,
+        # scores differing in the 6th digit): selection must stay exact
+        f = rng.choice(["subtomo_id", "subtomo_id", "object_id", "geom1", "score"])
+        col = sorted({val(r, f) for r in cur})
+        near = [a for a in col if any(0 < abs(a - b) <= 1e-5 * abs(b) for b in col)]
+        if near:
+            lead = rng.choice(["subset", "subset", "remove"])
+            vs = rng.sample(near, min(len(near), rng.choice([1, 1, 2, 3])))
+            vk = rng.choice(["list", "ndarray", "scalar"] if len(vs) == 1 else ["list", "ndarray"])
+            push(dict(op=lead, f=f, vs=[fb(v) for v in vs], vkind=vk, omit_f=False, ret_df=False, reset="omit", twice=False, kw=False))
+    if stream == "g2-cache":
+        # G2: ONE instance asked for the unique values of F, then F rewritten without changing the number of rows, then asked
+        # again (a cache keyed by (feature, shape) would answer with the stale values)
+        for _ in range(rng.randint(0, 2)):
+            push(_gen_op(rng, cur, doms, id_pool, tier, ctx))
+        f = rng.choice(["object_id", "object_id", "subtomo_id"])
+        push(dict(op="split", f=f, pick=0, keep=True, twice=False))
+        if f == "object_id":
+            push(dict(op="renumber_objects", start=fb(float(rng.choice([1, 1, 5, 100]))), default=rng.random() < 0.3))
+        else:
+            push(dict(op="renumber_particles"))
+        k = len(k1_split_parts(cur, f))
+        push(dict(op="split", f=f, pick=rng.randrange(k) if k else 0, keep=rng.random() < 0.5, twice=False))
+    while len(ops) < nops:
+        op = _gen_op(rng, cur, doms, id_pool, tier, ctx)
+        push(op)
+        if op["op"] in ("remove", "dropdup", "renumber_particles", "renumber_objects") and rng.random() < 0.1:
+            push(dict(op))      # the same in-place operation once more on the same instance
         if len(cur) > 400:
             break
-    return dict(base=base, cols=cols, ops=ops)
+    return dict(base=base, cols=cols, ops=ops, stream=stream)
 
 
 def generate(rng, tier, n):
     for _ in range(n):
         yield gen_case(rng, tier)
+
+
+def _rep(case, k, new):
+    ops = case["ops"]
+    return dict(case, ops=ops[:k] + [new] + ops[k + 1:])
 
 
 def shrink(case):
@@ -845,34 +1173,69 @@ def shrink(case):
         yield dict(case, base=base[len(base) // 2:])
         for i in range(min(len(base), 12)):
             yield dict(case, base=base[:i] + base[i + 1:])
-    for k, op in enumerate(ops):                   # smaller operands
+    for k, op in enumerate(ops):                   # smaller operands, plainer calls
         for key in ("other",):
             if key in op and len(op[key]) > 1:
-                yield dict(case, ops=ops[:k] + [dict(op, **{key: op[key][: len(op[key]) // 2]})] + ops[k + 1:])
-                yield dict(case, ops=ops[:k] + [dict(op, **{key: op[key][len(op[key]) // 2:]})] + ops[k + 1:])
+                yield _rep(case, k, dict(op, oid=None, **{key: op[key][: len(op[key]) // 2]}))
+                yield _rep(case, k, dict(op, oid=None, **{key: op[key][len(op[key]) // 2:]}))
         for key in ("before", "after"):
             if key in op and op[key]:
-                yield dict(case, ops=ops[:k] + [dict(op, **{key: op[key][1:]})] + ops[k + 1:])
+                yield _rep(case, k, dict(op, **{key: op[key][1:]}))
                 for j, x in enumerate(op[key]):
                     if len(x["rows"]) > 1:
-                        nx = dict(x, rows=x["rows"][: len(x["rows"]) // 2])
-                        yield dict(case, ops=ops[:k] + [dict(op, **{key: op[key][:j] + [nx] + op[key][j + 1:]})] + ops[k + 1:])
+                        nx = dict(x, oid=None, rows=x["rows"][: len(x["rows"]) // 2])
+                        yield _rep(case, k, dict(op, **{key: op[key][:j] + [nx] + op[key][j + 1:]}))
         if "vs" in op and len(op["vs"]) > 1 and op.get("vkind") != "scalar":
-            yield dict(case, ops=ops[:k] + [dict(op, vs=op["vs"][1:])] + ops[k + 1:])
-    # NaN holes -> plain numbers
-    if any(c == NANB for r in base for c in r):
-        yield dict(case, base=[[fb(1.0) if c == NANB else c for c in r] for r in base])
+            yield _rep(case, k, dict(op, vs=op["vs"][1:]))
+        if op.get("twice"):
+            yield _rep(case, k, dict(op, twice=False))
+        if op.get("ret_df") or op.get("reset") not in (None, "omit"):
+            yield _rep(case, k, dict(op, ret_df=False, reset="omit"))
+    # NaN holes -> plain numbers (payload fields only; a NaN key is the point of a nan-key case)
+    if any(r[IDX[f]] == NANB for r in base for f in NAN_FIELDS):
+        yield dict(case, base=[[fb(1.0) if (c == NANB and FIELDS[j] in NAN_FIELDS) else c for j, c in enumerate(r)] for r in base])
 
 
 # ------------------------------------------------------------------ implementation adapter
 def _table(df):
-    import numpy as np
+    """observation of a frame WITHOUT coercion: column names in the frame's order, cells as IEEE bit patterns in the canonical
+    field order, the dtype of every column that is not float64, text cells, and the state of the index"""
+    import numpy as np, pandas as pd
     cols = [str(c) for c in df.columns]
-    if sorted(cols) == sorted(FIELDS):
-        arr = df[FIELDS].to_numpy(dtype=float)
+    named = sorted(cols) == sorted(FIELDS)
+    odd, text = {}, []
+    if named and all(str(t) == "float64" for t in df.dtypes.tolist()):
+        arr = df[FIELDS].to_numpy()
+        rows = [[fb(x) for x in row] for row in arr.tolist()]
     else:
-        arr = df.to_numpy(dtype=float)
-    return dict(cols=cols, rows=[[fb(x) for x in row] for row in arr.tolist()])
+        data = []
+        for j, c in enumerate(FIELDS if named else cols):
+            col = df[c] if named else df.iloc[:, j]
+            dt = str(col.dtype)
+            if dt != "float64":
+                odd[c] = dt
+            vals = []
+            if pd.api.types.is_numeric_dtype(col.dtype) and not pd.api.types.is_bool_dtype(col.dtype):
+                vals = [float(x) if x is not None and x is not pd.NA else float("nan") for x in col.tolist()]
+            else:
+                for x in col.tolist():
+                    if isinstance(x, (int, float, np.integer, np.floating)) and not isinstance(x, (bool, np.bool_)):
+                        vals.append(float(x))
+                    elif x is None or x is pd.NA:
+                        vals.append(float("nan"))
+                    else:
+                        text.append(f"{c}={x!r}"[:60]); vals.append(float("nan"))
+            data.append([fb(v) for v in vals])
+        rows = [list(r) for r in zip(*data)] if data else []
+    idx = df.index
+    n = len(df)
+    default = (isinstance(idx, pd.RangeIndex) and idx.start == 0 and idx.step == 1) or list(idx) == list(range(n))
+    out = dict(cols=cols, rows=rows, index="default" if default else ("unique" if idx.is_unique else "duplicated"))
+    if odd:
+        out["dtypes"] = odd
+    if text:
+        out["text"] = text[:8]
+    return out
 
 
 def _frame(rows, cols=None):
@@ -895,37 +1258,131 @@ def _vals(op):
     return vs
 
 
+def _snap(x):
+    """before/after picture of a caller-owned object (Motl, DataFrame, ndarray, list, tuple, scalar)"""
+    import numpy as np, pandas as pd
+    if hasattr(x, "df") and isinstance(getattr(x, "df"), pd.DataFrame):
+        t = _table(x.df)
+        return ("Motl", type(x).__name__, t["cols"], t["rows"], t["index"], t.get("dtypes"), [int(i) if isinstance(i, (int, np.integer)) else str(i) for i in x.df.index[:400]])
+    if isinstance(x, pd.DataFrame):
+        t = _table(x)
+        return ("DataFrame", t["cols"], t["rows"], t["index"], t.get("dtypes"), [int(i) if isinstance(i, (int, np.integer)) else str(i) for i in x.index[:400]])
+    if isinstance(x, np.ndarray):
+        return ("ndarray", str(x.dtype), list(x.shape), [fb(float(v)) for v in x.ravel().tolist()])
+    if isinstance(x, (list, tuple)):
+        return (type(x).__name__, [fb(float(v)) for v in x])
+    return ("scalar", fb(float(x)))
+
+
+def _cryocat_frame(e):
+    import traceback, os
+    for fr in reversed(traceback.extract_tb(e.__traceback__)):
+        if "/cryocat/" in fr.filename.replace("\\", "/"):
+            return f"{os.path.basename(fr.filename)}:{fr.lineno}"
+    return ""
+
+
 def run_impl(case):
     import warnings, io, contextlib
     from cryocat import cryomotl
     Motl = cryomotl.Motl
     steps = []
+    pool = {}
+
+    def operand(rows, df, oid, key):
+        """a caller-owned operand; the same label gives the SAME Python object again (G2)"""
+        k = (key, oid, bool(df))
+        if oid is None or k not in pool:
+            obj = _frame(rows) if df else Motl(_frame(rows))
+            if oid is None:
+                return obj
+            pool[k] = obj
+        return pool[k]
+
     with warnings.catch_warnings(), contextlib.redirect_stdout(io.StringIO()):
         warnings.simplefilter("ignore")
         m = Motl(_frame(case["base"], case.get("cols")))
         for k, op in enumerate(case["ops"]):
             kind = op["op"]
             rec = {}
+            owned = []          # (label, object) the caller still owns after the call
             try:
+                ncalls = 2 if op.get("twice") else 1
+                new_m = m
                 if kind == "subset":
-                    m = m.get_motl_subset(_vals(op), feature_id=op["f"])
+                    vals = _vals(op)
+                    kw = {}
+                    if not op.get("omit_f"):
+                        kw["feature_id"] = op["f"]
+                    if op.get("ret_df"):
+                        kw["return_df"] = True
+                    if op.get("reset", "omit") != "omit":
+                        kw["reset_index"] = bool(op["reset"])
+                    owned = [("self", m), ("feature_values", vals)]
+                    before = [_snap(o) for _, o in owned]
+                    for c in range(ncalls):
+                        res = m.get_motl_subset(vals, **kw)
+                        if c == 0 and ncalls == 2:
+                            rec["first"] = _table(res if op.get("ret_df") else res.df)["rows"]
+                    rec["type"] = type(res).__name__
+                    new_m = Motl(res) if op.get("ret_df") else res
                 elif kind == "remove":
-                    m.remove_feature(op["f"], _vals(op))
+                    vals = _vals(op)
+                    owned = [("feature_values", vals)]
+                    before = [_snap(o) for _, o in owned]
+                    if op.get("kw"):
+                        m.remove_feature(feature_id=op["f"], feature_values=vals)
+                    else:
+                        m.remove_feature(op["f"], vals)
                 elif kind == "split":
-                    parts = m.split_by_feature(op["f"])
+                    owned = [("self", m)]
+                    before = [_snap(o) for _, o in owned]
+                    for c in range(ncalls):
+                        parts = m.split_by_feature(op["f"])
+                        if c == 0 and ncalls == 2:
+                            rec["first"] = [_table(p.df)["rows"] for p in parts]
                     rec["parts"] = [_table(p.df) for p in parts]
-                    m = parts[op["pick"]] if op["pick"] < len(parts) else Motl(_frame([]))
+                    rec["part_types"] = sorted({type(p).__name__ for p in parts})
+                    if not op.get("keep"):
+                        new_m = parts[op["pick"]] if op["pick"] < len(parts) else Motl(_frame([]))
                 elif kind == "intersect":
-                    m = Motl.get_motl_intersection(m, Motl(_frame(op["other"])), feature_id=op["f"])
+                    other = operand(op["other"], False, op.get("oid"), "other")
+                    owned = [("motl1", m), ("motl2", other)]
+                    before = [_snap(o) for _, o in owned]
+                    for c in range(ncalls):
+                        res = Motl.get_motl_intersection(m, other) if op.get("omit_f") else Motl.get_motl_intersection(m, other, feature_id=op["f"])
+                        if c == 0 and ncalls == 2:
+                            rec["first"] = _table(res.df)["rows"]
+                    new_m = res
                 elif kind == "dropdup":
-                    m.drop_duplicates(duplicates_column=op["dup"], decision_column=op["dec"], decision_sort_ascending=op["asc"])
+                    kw = {}
+                    om = op.get("omit", [])
+                    if "dup" not in om:
+                        kw["duplicates_column"] = op["dup"]
+                    if "dec" not in om:
+                        kw["decision_column"] = op["dec"]
+                    if "asc" not in om:
+                        kw["decision_sort_ascending"] = op["asc"]
+                    before = []
+                    m.drop_duplicates(**kw)
                 elif kind in ("merge_renumber", "merge_dropdup"):
-                    mk = lambda x: _frame(x["rows"]) if x["df"] else Motl(_frame(x["rows"]))
+                    mk = lambda x: operand(x["rows"], x["df"], x.get("oid"), "input")
                     lst = [mk(x) for x in op["before"]] + [m.df if op["self_df"] else m] + [mk(x) for x in op["after"]]
-                    m = Motl.merge_and_renumber(lst) if kind == "merge_renumber" else Motl.merge_and_drop_duplicates(lst)
+                    owned = [(f"motl_list[{i}]", o) for i, o in enumerate(lst)] + [("self", m)]
+                    before = [_snap(o) for _, o in owned]
+                    nlist = len(lst)
+                    for c in range(ncalls):
+                        res = Motl.merge_and_renumber(lst) if kind == "merge_renumber" else Motl.merge_and_drop_duplicates(lst)
+                        if c == 0 and ncalls == 2:
+                            rec["first"] = _table(res.df)["rows"]
+                    if len(lst) != nlist:
+                        rec.setdefault("mutated", []).append("motl_list (length)")
+                    new_m = res
                 elif kind == "renumber_particles":
+                    before = []
                     m.renumber_particles()
                 elif kind == "renumber_objects":
+                    before = []
                     if op.get("default"):
                         m.renumber_objects_sequentially()
                     else:
@@ -933,16 +1390,17 @@ def run_impl(case):
                         m.renumber_objects_sequentially(starting_number=int(s) if s == int(s) else s)
                 else:
                     raise ValueError(kind)
+                # G2: what the caller handed over must be what the caller still has
+                for (label, o), b in zip(owned, before):
+                    if _snap(o) != b:
+                        rec.setdefault("mutated", []).append(label)
+                m = new_m
             except Exception as e:
-                import traceback, os
-                where = ""
-                for fr in reversed(traceback.extract_tb(e.__traceback__)):
-                    if "/cryocat/" in fr.filename:
-                        where = f"{os.path.basename(fr.filename)}:{fr.lineno}"; break
-                steps.append(dict(error=f"{type(e).__name__}: {str(e)[:200]}", where=where))
+                where = _cryocat_frame(e)
+                steps.append(dict(error=f"{type(e).__name__}: {str(e)[:200]}", where=where, harness=(where == "")))
                 break
             rec.update(_table(m.df))
-            rec["type"] = type(m).__name__
+            rec.setdefault("type", type(m).__name__)
             steps.append(rec)
     return dict(steps=steps)
 
@@ -958,7 +1416,8 @@ def _wire_op(op):
     if k == "dropdup":
         return dict(op=k, dup=op["dup"], dec=op["dec"], asc=bool(op["asc"]))
     if k in ("merge_renumber", "merge_dropdup"):
-        return dict(op=k, before=op["before"], after=op["after"], self_df=bool(op["self_df"]))
+        strip = lambda xs: [dict(df=bool(x["df"]), rows=x["rows"]) for x in xs]
+        return dict(op=k, before=strip(op["before"]), after=strip(op["after"]), self_df=bool(op["self_df"]))
     if k == "renumber_objects":
         return dict(op=k, start=op["start"])
     return dict(op=k)
@@ -970,7 +1429,7 @@ def py_merge_offsets(inputs):
     for df, rows in inputs:
         if not rows:
             offs.append(0.0); continue
-        objs = [val(r, "object_id") for r in rows]
+        objs = [val(fz(r) if df else r, "object_id") for r in rows]
         c = (add - min(objs) + 1) if min(objs) <= add else 0.0
         offs.append(c)
         add = max(objs) + c
@@ -992,7 +1451,9 @@ def _offset_hints(op, prev, cur):
         for r in rows:
             key = _mask(fz(r), ["object_id"])
             if cnt[key] == 1 and key in outidx:
-                seen[i] = val(outidx[key], "object_id") - val(r, "object_id"); break
+                d = val(outidx[key], "object_id") - val(fz(r) if df else r, "object_id")
+                if not _nan(d):
+                    seen[i] = d; break
     hints = [seen] if seen == doc else [seen, doc]
     return [[fb(x) for x in h] for h in hints]
 
@@ -1001,30 +1462,57 @@ def _schema_ok(t):
     return sorted(t["cols"]) == sorted(FIELDS)
 
 
-def _check_request(case, obs):
-    """the REAL output of every op for the Lean verified checkers; stops after the first step that raised or
-    whose table cannot be brought into the canonical column order (the Lean side then rejects its schema)"""
-    steps, ops = [], []
+def _plan(case, obs):
+    """splits the observed history into the MAIN chain (operations after which the history continues with the returned
+    table) and SIDE checks (a split whose parts are only looked at: the same instance continues unchanged, G2).
+    Returns (chain, sides, stop): chain = [(k, op, st)], sides = [(k, op, st, real table before)], stop = index of the first
+    step that raised / has an unusable table (None if none)."""
+    chain, sides, stop = [], [], None
     prev = case["base"]
-    for op, st in zip(case["ops"], obs.get("steps", [])):
+    for k, (op, st) in enumerate(zip(case["ops"], obs.get("steps", []))):
         if "error" in st:
-            break
+            stop = k; break
         tabs = [st] + (st.get("parts") or [])
-        good = all(_schema_ok(t) for t in tabs)
-        rec = dict(cols=st["cols"], rows=st["rows"] if good else [])
-        if "parts" in st:
-            rec["parts"] = [dict(cols=p["cols"], rows=p["rows"] if good else []) for p in st["parts"]]
-        if op["op"] == "merge_dropdup" and good:
-            rec["hints"] = _offset_hints(op, prev, st["rows"])
-        steps.append(rec); ops.append(_wire_op(op))
+        good = all(_schema_ok(t) and not t.get("text") for t in tabs)
+        if op["op"] == "split" and op.get("keep"):
+            sides.append((k, op, st, prev))
+        else:
+            chain.append((k, op, st))
         if not good:
-            break
+            stop = k; break
         prev = st["rows"]
-    return dict(op="check", base=case["base"], ops=ops, obs=steps)
+    return chain, sides, stop
+
+
+def _obs_rec(op, st, prev):
+    tabs = [st] + (st.get("parts") or [])
+    good = all(_schema_ok(t) and not t.get("text") for t in tabs)
+    rec = dict(cols=st["cols"], rows=st["rows"] if good else [])
+    if "parts" in st:
+        rec["parts"] = [dict(cols=p["cols"], rows=p["rows"] if good else []) for p in st["parts"]]
+    if op["op"] == "merge_dropdup" and good:
+        rec["hints"] = _offset_hints(op, prev, st["rows"])
+    return rec
 
 
 def requests(case, obs):
-    return [dict(op="history", base=case["base"], ops=[_wire_op(o) for o in case["ops"]]), _check_request(case, obs)]
+    """[0] the model's trace of the main chain, [1] the Lean verified checkers on the REAL outputs of the main chain,
+    then per side split: [2+2i] the model's parts, [3+2i] the checkers on the real parts (base = the REAL table before it)"""
+    chain, sides, _ = _plan(case, obs)
+    ops = [op for op in case["ops"] if not (op["op"] == "split" and op.get("keep"))]
+    reqs = [dict(op="history", base=case["base"], ops=[_wire_op(o) for o in ops])]
+    prev, recs = case["base"], []
+    for k, op, st in chain:
+        recs.append(_obs_rec(op, st, prev)); prev = st["rows"]
+    reqs.append(dict(op="check", base=case["base"], ops=[_wire_op(op) for _, op, _ in chain], obs=recs))
+    for k, op, st, before in sides:
+        w = dict(_wire_op(op), pick=0)
+        parts = st.get("parts") or []
+        side = dict(_obs_rec(op, st, before))
+        side["rows"] = side["parts"][0]["rows"] if side.get("parts") else []     # `split-pick`: the history does not continue with a part
+        reqs.append(dict(op="history", base=before, ops=[w]))
+        reqs.append(dict(op="check", base=before, ops=[w], obs=[side]))
+    return reqs
 
 
 # ------------------------------------------------------------------ the statement, clause by clause, on the real output
@@ -1085,9 +1573,10 @@ def clauses(op, prev, cur, parts=None):
             member = lambda r: tuple(r) in P
         else:
             ins = inputs_of(op, prev)
-            src = [tuple(r) for df, rows in ins for r in rows]
+            src = [tuple(fz(r) if df else r) for df, rows in ins for r in rows]     # ids / scores of a DataFrame input are read after loading
             dup, dec, asc = "subtomo_id", "score", False
-            pool = _ms([_mask(x, ["object_id"]) for r in src for x in (r, fz(r))])
+            # a missing value may come back filled only for an input handed over as a bare DataFrame
+            pool = _ms([_mask(x, ["object_id"]) for df, rows in ins for r in rows for x in ((r, fz(r)) if df else (r,))])
             member = lambda r: _mask(r, ["object_id"]) in pool
         ids = [val(r, dup) for r in cur]
         if len(py_uniq(ids)) != len(ids):
@@ -1098,7 +1587,7 @@ def clauses(op, prev, cur, parts=None):
             if not member(r):
                 out.append(("other-fields-unchanged", f"row after drop_duplicates is not a row of the input: {_fmt_row(r)}")); break
             same = [val(s, dec) for s in src if val(s, dup) == val(r, dup)]
-            best = min(same) if asc else max(same)
+            best = (min(same) if asc else max(same)) if same else None
             if same and val(r, dec) != best:
                 out.append(("dropdup-keeps-best-scoring-row", f"{dup}={val(r, dup):g}: kept {dec}={val(r, dec):g}, best is {best:g} ({'ascending' if asc else 'descending'})")); break
         if k == "merge_dropdup":
@@ -1107,11 +1596,17 @@ def clauses(op, prev, cur, parts=None):
         ins = inputs_of(op, prev)
         n = sum(len(rows) for _, rows in ins)
         got = [val(r, "subtomo_id") for r in cur]
-        if sorted(got) != [float(i) for i in range(1, n + 1)]:
-            out.append(("merge-renumber-subtomo-1..N", f"N={n}, subtomo ids {got[:12]}{'...' if len(got) > 12 else ''}"))
-        src = [r for df, rows in ins for r in rows]
-        if _ms([_mask(fz(r), ["subtomo_id", "object_id"]) for r in cur]) != _ms([_mask(fz(r), ["subtomo_id", "object_id"]) for r in src]):
-            out.append(("other-fields-unchanged", "merge_and_renumber: rows (ids masked) differ from the union of the inputs"))
+        if got != [float(i) for i in range(1, n + 1)]:          # in ROW ORDER, as mergeRenumber_ids proves
+            out.append(("merge-renumber-subtomo-1..N", f"N={n}, subtomo ids in row order {got[:12]}{'...' if len(got) > 12 else ''}"))
+        pos, same = 0, len(cur) == n
+        for df, rows in ins:                                      # block by block; only a DataFrame input may come back filled
+            for r, c in zip(rows, cur[pos:pos + len(rows)]):
+                mc = _mask(c, ["subtomo_id", "object_id"])
+                if mc != _mask(r, ["subtomo_id", "object_id"]) and not (df and all(a == b or (a == NANB and b == ZEROB) for a, b in zip(_mask(r, ["subtomo_id", "object_id"]), mc) if a is not None)):
+                    same = False
+            pos += len(rows)
+        if not same:
+            out.append(("other-fields-unchanged", "merge_and_renumber: rows (ids masked) differ from the inputs one after the other"))
         else:
             out += _object_clauses(ins, cur, by_position=True)
     elif k == "renumber_particles":
@@ -1142,18 +1637,20 @@ def clauses(op, prev, cur, parts=None):
 
 
 def _object_clauses(ins, cur, by_position):
-    """object numbers never collide across inputs; each input keeps its grouping (uniform offset)"""
+    """object numbers never collide across inputs; each input keeps its grouping (uniform offset; the object numbers of an
+    input handed over as a bare DataFrame are read after loading, i.e. a missing one is 0)"""
     out = []
     blocks = []
+    ld = lambda df, r: fz(r) if df else r
     if by_position:
         pos = 0
         for df, rows in ins:
-            blocks.append(list(zip(rows, cur[pos:pos + len(rows)]))); pos += len(rows)
+            blocks.append([(ld(df, r), c) for r, c in zip(rows, cur[pos:pos + len(rows)])]); pos += len(rows)
     else:
         # after drop_duplicates rows are identified by content (ids masked); ambiguous rows are skipped
         cnt = Counter(_mask(fz(r), ["object_id"]) for df, rows in ins for r in rows)
         for df, rows in ins:
-            idx = {_mask(fz(r), ["object_id"]): r for r in rows if cnt[_mask(fz(r), ["object_id"])] == 1}
+            idx = {_mask(fz(r), ["object_id"]): ld(df, r) for r in rows if cnt[_mask(fz(r), ["object_id"])] == 1}
             blocks.append([(idx[_mask(fz(c), ["object_id"])], c) for c in cur if _mask(fz(c), ["object_id"]) in idx])
     seen = {}
     for bi, blk in enumerate(blocks):
@@ -1167,34 +1664,85 @@ def _object_clauses(ins, cur, by_position):
     return out
 
 
-def judge(case, obs, resps):
-    """spec findings are decided by the Lean VERIFIED CHECKERS (`check` request: Model/C08_Check.lean, theorems
-    check_*_sound / check_*_complete / check_history_rows) applied to the REAL output of every operation; a raised
-    exception is a spec finding by itself. The Python clause evaluators (`clauses`) only cross-check the checker
-    (a disagreement is a corr finding) and supply the human-readable detail. Then the table is compared with the model."""
-    out = []
+RESETTING = ("intersect", "dropdup", "merge_renumber", "merge_dropdup", "renumber_objects")
+
+
+def _side_findings(k, op, st, prev, verdict, model):
+    """a split whose parts are only looked at (G2: the same instance continues): the parts are judged by the Lean checker
+    against the REAL table before the call"""
+    name = "split"
+    parts = [p["rows"] for p in st.get("parts", [])]
+    fs = clauses(op, prev, st["rows"], parts)
+    failed = [c for c in (verdict.get("failed") or []) if c != "split-pick"]
+    if failed:
+        pyd = dict(fs)
+        return [dict(kind="spec", clause=c, step=k, detail=f"op {k} split(keep): Lean checker rejects the real parts: " + pyd.get(c, "; ".join(d for _, d in fs) or f"{len(prev)} rows in, {sum(map(len, parts))} rows in {len(parts)} parts"))
+                for c in failed]
+    if fs:
+        return [dict(kind="corr", clause="checker-vs-python-evaluator", step=k, detail=f"op {k} split(keep): the Lean checker accepts the real parts but the Python evaluator reports {c}: {d}") for c, d in fs]
+    if isinstance(model, dict) and "parts" in model and model["parts"][0] != parts:
+        return [dict(kind="corr", clause="split-parts-vs-model", step=k, detail=f"op {k} split(keep): parts differ from the model's (count {len(parts)} vs {len(model['parts'][0])})")]
+    return []
+
+
+def _judge(case, obs, resps):
+    """spec findings are decided by the Lean VERIFIED CHECKERS (`check` requests: Model/C08_Check.lean, theorems
+    check_*_sound / check_*_complete / check_history_rows) applied to the REAL output of every operation, or by an evaluation
+    that involves neither the model nor a sub-result of the implementation: an exception raised inside cryocat, a text cell in a
+    numeric field, a caller-owned argument that differs from its picture taken before the call. The Python clause evaluators
+    (`clauses`) only cross-check the checker (a disagreement is a corr finding) and supply the human-readable detail. Everything
+    compared with the MODEL (table, parts, index state, dtypes, class) is corr."""
     steps = obs.get("steps", [])
     if "error" in obs:
+        if not obs.get("where"):
+            return [dict(kind="corr", clause="harness-or-library-raised", detail=obs["error"])]
         return [dict(kind="spec", clause="raises", detail=obs["error"] + " @" + obs.get("where", ""))]
+    chain, sides, stop = _plan(case, obs)
     model = resps[0] if resps else {"error": "no response"}
     check = resps[1] if len(resps) > 1 else {"error": "no checker response"}
+    side_of = {k: (2 + 2 * i, 3 + 2 * i) for i, (k, _, _, _) in enumerate(sides)}
+    chain_pos = {k: i for i, (k, _, _) in enumerate(chain)}
     prev = case["base"]
+    corr = []      # the first disagreement with the model / documented behaviour; later steps are still judged by the checkers
     for k, (op, st) in enumerate(zip(case["ops"], steps)):
         name = op["op"]
         if "error" in st:
-            return [dict(kind="spec", clause=f"{name}-raises", detail=f"op {k} {name}: {st['error']} @{st.get('where','')}")]
-        if "error" in check or k >= len(check.get("verdicts", [])):
-            return [dict(kind="corr", clause="checker-error", detail=f"op {k} {name}: no verdict from the Lean checker: {str(check)[:300]}")]
-        verdict = check["verdicts"][k]
+            if st.get("harness"):   # G4: no frame inside cryocat/ -> not the property's business
+                return [dict(kind="corr", clause="harness-or-library-raised", step=k, detail=f"op {k} {name}: {st['error']} (no frame inside cryocat/)")]
+            return [dict(kind="spec", clause=f"{name}-raises", step=k, detail=f"op {k} {name}: {st['error']} @{st.get('where','')}")]
         tabs = [st] + (st.get("parts") or [])
+        txt = [x for t in tabs for x in t.get("text", [])]
+        if txt:                      # G3: a numeric field came back as text
+            return [dict(kind="spec", clause="field-not-numeric", step=k, detail=f"op {k} {name}: text in numeric field(s): {txt[:4]}; dtypes {st.get('dtypes')}")]
+        is_side = k in side_of
+        if is_side:
+            vresp = resps[side_of[k][1]] if len(resps) > side_of[k][1] else {"error": "no checker response"}
+            vlist, vi = vresp.get("verdicts", []) if isinstance(vresp, dict) else [], 0
+        else:
+            vresp, vlist, vi = check, check.get("verdicts", []) if isinstance(check, dict) else [], chain_pos.get(k, 10 ** 9)
+        if "error" in vresp or vi >= len(vlist):
+            return [dict(kind="corr", clause="checker-error", step=k, detail=f"op {k} {name}: no verdict from the Lean checker: {str(vresp)[:300]}")]
+        verdict = vlist[vi]
         if not verdict["schema"]:
             t = next((t for t in tabs if not _schema_ok(t)), st)
             missing = [f for f in FIELDS if f not in t["cols"]]
             extra = [c for c in t["cols"] if c not in FIELDS]
-            return [dict(kind="spec", clause="exactly-the-20-fields", detail=f"op {k} {name}: table has {len(t['cols'])} columns; missing {missing}, extra {extra}")]
+            return [dict(kind="spec", clause="exactly-the-20-fields", step=k, detail=f"op {k} {name}: table has {len(t['cols'])} columns; missing {missing}, extra {extra}")]
         if not all(_schema_ok(t) for t in tabs):
-            return [dict(kind="corr", clause="checker-vs-python-evaluator", detail=f"op {k} {name}: the Lean schema check accepted column names {st['cols']}")]
+            return [dict(kind="corr", clause="checker-vs-python-evaluator", step=k, detail=f"op {k} {name}: the Lean schema check accepted column names {st['cols']}")]
+        if st.get("mutated"):        # G2: the call edited something the caller owns
+            return [dict(kind="spec", clause="caller-input-mutated", step=k, detail=f"op {k} {name}: after the call the caller's {st['mutated']} differ(s) from before the call "
+                         "(the operation returns a new list; its arguments are not part of the result)")]
         cur = st["rows"]
+        if is_side:
+            smodel = resps[side_of[k][0]] if len(resps) > side_of[k][0] else {}
+            fs = _side_findings(k, op, st, prev, verdict, smodel)
+            if fs and fs[0]["kind"] == "spec":
+                return fs
+            corr = corr or fs
+            if cur != prev:
+                return [dict(kind="spec", clause="caller-input-mutated", step=k, detail=f"op {k} split: the list itself changed although split_by_feature only returns parts")]
+            continue
         parts = [p["rows"] for p in st["parts"]] if "parts" in st else None
         try:
             fs = clauses(op, prev, cur, parts)
@@ -1202,35 +1750,120 @@ def judge(case, obs, resps):
             import traceback
             fs = [("clause-evaluator-crashed", f"{type(e).__name__}: {e} {traceback.format_exc()[-400:]}")]
         if fs and fs[0][0] == "clause-evaluator-crashed":
-            return [dict(kind="corr", clause=fs[0][0], detail=f"op {k} {name}: {fs[0][1]}")]
+            return [dict(kind="corr", clause=fs[0][0], step=k, detail=f"op {k} {name}: {fs[0][1]}")]
         if not verdict["ok"]:
             pyd = dict(fs)
-            failed = verdict["failed"] or ["checker-rejected"]
+            failed = list(dict.fromkeys(verdict["failed"] or ["checker-rejected"]))
             note = "" if fs else " [the Python cross-check evaluator saw no failing clause]"
-            return [dict(kind="spec", clause=c, detail=f"op {k} {name}: Lean checker rejects the real output: " + pyd.get(c, "; ".join(d for _, d in fs) or f"{len(prev)} rows in, {len(cur)} rows out") + note)
+            return [dict(kind="spec", clause=c, step=k, detail=f"op {k} {name}: Lean checker rejects the real output: " + pyd.get(c, "; ".join(d for _, d in fs) or f"{len(prev)} rows in, {len(cur)} rows out") + note)
                     for c in failed]
         if fs:
-            return [dict(kind="corr", clause="checker-vs-python-evaluator",
-                         detail=f"op {k} {name}: the Lean checker accepts the real output but the Python evaluator reports {c}: {d}") for c, d in fs]
-        # correspondence with the Lean model (exact, bit for bit)
-        if "error" in model:
-            return [dict(kind="corr", clause="model-error", detail=str(model))]
-        if model["states"][k] != cur:
-            mrows = model["states"][k]
+            corr = corr or [dict(kind="corr", clause="checker-vs-python-evaluator", step=k,
+                                 detail=f"op {k} {name}: the Lean checker accepts the real output but the Python evaluator reports {c}: {d}") for c, d in fs]
+        # ---- everything below compares with the model / the documented behaviour: corr
+        odd = {c: t for tb in tabs for c, t in (tb.get("dtypes") or {}).items()}
+        want_type = "DataFrame" if (name == "subset" and op.get("ret_df")) else "Motl"
+        ci = chain_pos[k]
+        if corr:
+            pass
+        elif odd:                      # G3: numeric, but not the float64 the lists are made of
+            corr = corr or [dict(kind="corr", clause="dtype-vs-model", step=k, detail=f"op {k} {name}: columns not float64: {odd}")]
+        elif st.get("type") != want_type or any(t != "Motl" for t in st.get("part_types", [])):
+            corr = corr or [dict(kind="corr", clause="returned-class", step=k, detail=f"op {k} {name}: returned {st.get('type')} {st.get('part_types', '')}, documented {want_type}")]
+        elif (name in RESETTING or (name == "subset" and op.get("reset", "omit") is not False)) and st.get("index") != "default":
+            corr = corr or [dict(kind="corr", clause="index-vs-documented-reset", step=k, detail=f"op {k} {name}: the index of the returned table is {st.get('index')}, the source resets it (reset_index(drop=True))")]
+        elif st["cols"] != FIELDS and st["cols"] != case.get("cols", FIELDS):
+            corr = corr or [dict(kind="corr", clause="column-order", step=k, detail=f"op {k} {name}: column order {st['cols']} is neither the documented nor the input's")]
+        elif "first" in st and st["first"] != (parts if name == "split" else cur):
+            corr = corr or [dict(kind="corr", clause="second-call-differs-from-first", step=k, detail=f"op {k} {name}: the same call on the same objects gave a different result the second time (the second is the one judged)")]
+        elif "error" in model:
+            corr = corr or [dict(kind="corr", clause="model-error", step=k, detail=str(model))]
+        elif model["states"][ci] != cur:
+            mrows = model["states"][ci]
             i = next((i for i, (a, b) in enumerate(zip(mrows, cur)) if a != b), min(len(mrows), len(cur)))
             det = f"op {k} {name}: model has {len(mrows)} rows, implementation {len(cur)}; first difference at row {i}"
             if i < len(mrows) and i < len(cur):
                 j = next(j for j in range(20) if mrows[i][j] != cur[i][j])
                 det += f", field {FIELDS[j]}: model {b2f(mrows[i][j])!r}, implementation {b2f(cur[i][j])!r}"
-            return [dict(kind="corr", clause=f"{name}-vs-model", detail=det)]
-        if parts is not None and model["parts"][k] != parts:
-            return [dict(kind="corr", clause="split-parts-vs-model", detail=f"op {k}: parts differ from the model's (count {len(parts)} vs {len(model['parts'][k])})")]
+            corr = corr or [dict(kind="corr", clause=f"{name}-vs-model", step=k, detail=det)]
+        elif parts is not None and model["parts"][ci] != parts:
+            corr = corr or [dict(kind="corr", clause="split-parts-vs-model", step=k, detail=f"op {k}: parts differ from the model's (count {len(parts)} vs {len(model['parts'][ci])})")]
         prev = cur
+    if corr:
+        return corr
+    out = []
     if len(steps) != len(case["ops"]):
         out.append(dict(kind="corr", clause="history-truncated", detail=f"{len(steps)} of {len(case['ops'])} ops observed"))
     elif "error" not in check and not check.get("run_ok", False):
         out.append(dict(kind="corr", clause="checker-run-vs-steps", detail="every step was accepted but checkRun (the function check_history_rows is about) is false"))
     return out
+
+
+def _real_before(case, obs, k):
+    steps = obs.get("steps", [])
+    return case["base"] if k == 0 else steps[k - 1].get("rows")
+
+
+def judge(case, obs, resps):
+    """`_judge`, then every spec finding that is EXACTLY a known class gets the class id attached (field `known`, and as a
+    suffix of the clause, so that the framework's shrinker -- which keeps kind and clause fixed -- can neither turn an
+    unlisted violation into an input of a known class nor the other way round)"""
+    fs = _judge(case, obs, resps)
+    for f in fs:
+        kid = _known_class(case, obs, f)
+        if kid:
+            f["known"] = kid
+            f["clause"] = f"{f['clause']} [{kid}]"
+    return fs
+
+
+def classify(case, obs, finding):
+    return finding.get("known")
+
+
+def _known_class(case, obs, finding):
+    """id of the known finding a failure belongs to, only when the real output is EXACTLY what the described defect produces
+    (simulated independently here); anything else stays a violation.
+    C08-K1 (open): NaN in the key field -> split_by_feature loses exactly the rows with a missing feature (and returns one
+    empty part); renumber_objects_sequentially leaves rows with a missing tomo_id un-renumbered and numbers a missing object_id
+    start-1.  C08-K2 / C08-K3 are NEW classes found by the hardening pass (reported to the integrator; generated only once
+    they are registered as open): drop_duplicates / merge_and_drop_duplicates collapse all rows with a missing id into one;
+    a missing object_id in a Motl input of a merge poisons min()/max() so that object numbers of different inputs collide."""
+    if finding.get("kind") != "spec" or "step" not in finding:
+        return None
+    k = finding["step"]
+    steps = obs.get("steps", [])
+    if k >= len(steps) or k >= len(case["ops"]) or "rows" not in steps[k]:
+        return None
+    op, st = case["ops"][k], steps[k]
+    prev = _real_before(case, obs, k)
+    if prev is None or st.get("mutated") or st.get("text"):
+        return None
+    name, clause = op["op"], finding.get("clause")
+    try:
+        if name == "split" and has_nan(prev, op["f"]) and clause in ("split-partitions-the-list", "split-part-has-one-value"):
+            if [p["rows"] for p in st.get("parts", [])] == k1_split_parts(prev, op["f"]):
+                return "C08-K1"
+        if name == "renumber_objects" and (has_nan(prev, "tomo_id") or has_nan(prev, "object_id")) \
+                and clause in ("renumber-objects-keeps-grouping", "renumber-objects-consecutive"):
+            if st["rows"] == k1_renumber_objects(prev, b2f(op["start"])):
+                return "C08-K1"
+        if name == "dropdup" and has_nan(prev, op["dup"]) and clause in ("dropdup-every-id-survives", "dropdup-one-row-per-id"):
+            if st["rows"] == py_dropdup(prev, op["dup"], op["dec"], op["asc"]):
+                return "C08-K2"
+        if name in ("merge_renumber", "merge_dropdup"):
+            ins = inputs_of(op, prev)
+            nan_obj = any((not df) and has_nan(rows, "object_id") for df, rows in ins)
+            nan_id = any((not df) and has_nan(rows, "subtomo_id") for df, rows in ins)
+            sim = py_step(prev, op)
+            if st["rows"] == sim:
+                if nan_obj and clause in ("merge-object-numbers-never-collide", "merge-keeps-each-inputs-grouping", "merge-dropdup-no-certificate"):
+                    return "C08-K3"
+                if name == "merge_dropdup" and nan_id and clause in ("dropdup-every-id-survives", "dropdup-one-row-per-id", "merge-dropdup-no-certificate"):
+                    return "C08-K2"
+    except Exception:
+        return None
+    return None
 
 
 def nontrivial(case, obs):
@@ -1249,24 +1882,61 @@ def _bucket(n):
 def stats(case, obs, resps):
     steps = obs.get("steps", [])
     d = {"base_rows": _bucket(len(case["base"])), "n_ops": str(len(case["ops"])), "op": [o["op"] for o in case["ops"]],
-         "column_order": "canonical" if case.get("cols", FIELDS) == FIELDS else "shuffled"}
+         "column_order": "canonical" if case.get("cols", FIELDS) == FIELDS else "shuffled", "stream": case.get("stream", "corpus")}
     prev = case["base"]
     branch = []
+    pool_seen = set()
     for op, st in zip(case["ops"], steps):
         if "rows" not in st:
-            branch.append(op["op"] + ":raised"); break
+            branch.append(op["op"] + (":harness-raised" if st.get("harness") else ":raised")); break
         cur = st["rows"]
         k = op["op"]
         tag = "empty-in" if not prev else ("empty-out" if not cur else ("all-kept" if len(cur) == len(prev) and k in ("subset", "remove", "intersect", "dropdup") else "some"))
         branch.append(f"{k}:{tag}")
+        branch.append(f"index-after:{st.get('index')}")
+        if st.get("dtypes"):
+            branch.append(f"{k}:dtypes-not-float64:{sorted(set(st['dtypes'].values()))}")
+        if st.get("cols") != FIELDS:
+            branch.append("column-order-after:" + ("input's" if st.get("cols") == case.get("cols") else "other"))
+        if op.get("twice"):
+            branch.append(f"{k}:G2-called-twice-on-the-same-objects")
+        if k == "split" and op.get("keep"):
+            branch.append("split:G2-same-instance-continues")
+        for x in ([op] if "oid" in op else []) + op.get("before", []) + op.get("after", []):
+            if x.get("oid"):
+                if x["oid"] in pool_seen:
+                    branch.append(f"{k}:G2-operand-object-reused")
+                pool_seen.add(x["oid"])
+        # G1: which keywords were left to the signature default
+        if k == "subset":
+            branch += [f"subset:G1-{w}" for w, c in (("feature_id-omitted", op.get("omit_f")), ("reset_index-omitted", op.get("reset", "omit") == "omit"),
+                                                     ("reset_index=False", op.get("reset") is False), ("return_df=True", op.get("ret_df"))) if c]
+        if k == "intersect" and op.get("omit_f"):
+            branch.append("intersect:G1-feature_id-omitted")
+        if k == "dropdup":
+            branch += [f"dropdup:G1-{w}-omitted" for w in op.get("omit", [])]
+        if k == "renumber_objects" and op.get("default"):
+            branch.append("renumber_objects:G1-starting_number-omitted")
+        kf = op.get("f") or op.get("dup")
+        if kf and has_nan(prev, kf):
+            branch.append(f"{k}:NaN-in-key-field")
+        if k == "renumber_objects" and (has_nan(prev, "tomo_id") or has_nan(prev, "object_id")):
+            branch.append("renumber_objects:NaN-in-key-field")
         if "vkind" in op:
             branch.append(f"{k}:values-{op['vkind']}")
             if len(set(op["vs"])) < len(op["vs"]):
                 branch.append(f"{k}:repeated-values")
+            if NANB in op["vs"]:
+                branch.append(f"{k}:NaN-requested")
+            big = sorted(b2f(v) for v in set(op["vs"]) if v != NANB)
+            col = sorted({val(r, op["f"]) for r in prev if not _nan(val(r, op["f"]))})
+            if any(0 < abs(a - b) <= 1e-5 * abs(b) for a in big for b in col):
+                branch.append(f"{k}:requested-value-within-1e-5-of-a-different-one")
         if k == "intersect":
             ids = [r[IDX[op["f"]]] for r in op["other"]]
             if len(set(ids)) < len(ids):
                 branch.append("intersect:second-list-repeats-id")
+            branch.append("intersect:second-list-" + ("<=20" if len(ids) <= 20 else ">20") + "-rows")
             keep = {b2f(fz(r)[IDX[op["f"]]]) for r in op["other"]}
             if any(c == NANB for r in prev if b2f(fz(r)[IDX[op["f"]]]) in keep for c in r):
                 branch.append("intersect:surviving-row-had-missing-value(filled-with-0)")
@@ -1274,9 +1944,11 @@ def stats(case, obs, resps):
             dup, dec = (op["dup"], op["dec"]) if k == "dropdup" else ("subtomo_id", "score")
             grp = {}
             for r in prev:
-                grp.setdefault(val(r, dup), []).append(val(r, dec))
-            if any(len(v) > 1 and sorted(v)[-1] == sorted(v)[-2] for v in grp.values()):
+                grp.setdefault(val(r, dup), []).append((val(r, dec), val(r, "tomo_id")))
+            if any(len(v) > 1 and sorted(v)[-1][0] == sorted(v)[-2][0] for v in grp.values()):
                 branch.append(f"{k}:tie-on-best")
+            if any(len({t for _, t in v}) > 1 for v in grp.values()):
+                branch.append(f"{k}:id-duplicated-across-tomograms")
         if k in ("merge_renumber", "merge_dropdup"):
             ins = inputs_of(op, prev)
             branch.append(f"{k}:{len(ins)}-inputs")
@@ -1284,12 +1956,19 @@ def stats(case, obs, resps):
                 branch.append(f"{k}:has-empty-input")
             if any(df for df, _ in ins):
                 branch.append(f"{k}:has-dataframe-input")
+            if sum(1 for c in py_merge_offsets(ins)[:-1] if c != 0) and len([1 for _, rows in ins if rows]) >= 3:
+                branch.append(f"{k}:3+-inputs-with-an-earlier-one-shifted")
         prev = cur
     d["branch"] = branch
     d["final_rows"] = _bucket(len(prev))
     chk = resps[1] if len(resps) > 1 and isinstance(resps[1], dict) else {}
+    chain_ops = [op for op in case["ops"] if not (op["op"] == "split" and op.get("keep"))]
     d["lean_checker"] = [f"{op['op']}:{'accepted' if v.get('ok') and v.get('schema') else 'rejected:' + ','.join(v.get('failed') or ['schema'])}"
-                         for op, v in zip(case["ops"], chk.get("verdicts", []))] or ["no-verdict"]
+                         for op, v in zip(chain_ops, chk.get("verdicts", []))] or ["no-verdict"]
+    for r in resps[3::2]:
+        for v in (r.get("verdicts", []) if isinstance(r, dict) else []):
+            bad = [c for c in (v.get("failed") or []) if c != "split-pick"]
+            d["lean_checker"].append("split(keep):" + ("accepted" if not bad and v.get("schema") else "rejected:" + ",".join(bad or ["schema"])))
     d["lean_checker_history"] = "accepted (check_history_rows applies)" if chk.get("run_ok") else "not accepted"
     return d
 
@@ -1330,12 +2009,15 @@ LEVEL_TEXT = ("Lean 4 verified checkers deciding the clauses of the statement on
               "check_history_rows for an accepted observed history), plus Lean 4 theorems about an executable model of get_motl_subset / remove_feature / split_by_feature / get_motl_intersection / drop_duplicates / "
               "merge_and_renumber / merge_and_drop_duplicates / renumber_particles / renumber_objects_sequentially, for all lists, all value lists and all "
               "operation sequences, no size bound (subset_spec, remove_spec, remove_subset_complement, split_partition, split_disjoint, intersect_spec, "
-              "dropDup_spec, mergeRenumber_ids, mergeRenumber_objects, renumberParticles_spec, renumberObjects_spec, history_rows, selection_history_rows, "
+              "dropDup_spec, mergeRenumber_ids, mergeRenumber_objects, renumberParticles_spec, renumberObjects_spec, step_rows_literal, history_rows (histFill), history_rows_literal, selection_history_rows, "
+              "subset_spec_beq, remove_spec_beq, split_drops_irreflexive_rows, renumberObjects_irreflexive_rows, "
               "split_flatten_eq_stable_sort, subset_eq_stable_sort, mergeRenumber_then_selections_nodup); "
               "the model is tied to the source by regenerated operators/defaults/expressions and by loop-structure records extracted from ast shapes and EXECUTED by the "
-              "model (Gen/C08.lean: SelectLoop for get_motl_subset / remove_feature / split_by_feature, ObjLoop for renumber_objects_sequentially; 13 documented-value theorems) and by a "
+              "model (Gen/C08.lean: SelectLoop for get_motl_subset / remove_feature / split_by_feature, ObjLoop for renumber_objects_sequentially; 15 documented-value theorems incl. signatures_documented and bodies_documented) and by a "
               "bit-exact differential run of random operation histories through the real Motl API against the compiled model")
-LEVEL_NOTE = ("trusted: Lean kernel; translator anchors; pandas semantics listed in assumptions (probed each run); the schema clause (exactly 20 fields) is a "
-              "type in the model (history_schema) and is decided for the code by checkSchema on the real column names (check_schema_iff); NaN->0.0 filling by Motl.load is modelled explicitly")
+LEVEL_NOTE = ("trusted: Lean kernel; translator anchors (alpha-normalised: names of locals are free; signatures with defaults and whole-body digests of the 16 functions involved); "
+              "pandas semantics listed in assumptions (probed each run); the schema clause (exactly 20 fields) is a "
+              "type in the model (history_schema) and is decided for the code by checkSchema on the real column names (check_schema_iff); NaN->0.0 filling by Motl.load is modelled explicitly "
+              "and permitted only for intersection and merges with a bare-DataFrame input (Op.mayFill); accepts_model theorems exist for every checker except the two merges")
 TECHNIQUE = "Lean 4 proof (list induction, permutation/partition lemmas, sortedness invariants, ordered-ring arithmetic) + regenerated operators + bit-exact differential histories"
 DESIGN_REF = "DESIGN.md section 4, C08"
